@@ -626,6 +626,8 @@ CORPUS = [
      [["u:file:////x//y", "u:urn:e:p", "u:http://ex.org/q?"], ["u:file:////x//y", "u:urn:e:p", "u:http://ex.org/b/d?"]]),
     ("json-ld", '{"@context": {"@base": "http://ex.org/b/c"}, "@id": "//ex.org/a//b", "urn:p": {"@id": "/x//y"}}', [["u:http://ex.org/a//b", "u:urn:p", "u:http://ex.org/x//y"]]),
     ("json-ld", '{"@id":"urn:a","urn:p":"é😀"}', [["u:urn:a", "u:urn:p", "l:é😀"]]),
+    ("turtle", '\ufeff<urn:a> <urn:p> "x\ufeff" .', [["u:urn:a", "u:urn:p", "l:x\ufeff"]]),
+    ("trig", '\ufeff<urn:g> { <urn:a> <urn:p> "x" }', [["u:urn:a", "u:urn:p", "l:x", "u:urn:g"]]),
     ("xml@ISO-8859-1", '<?xml version="1.0" encoding="ISO-8859-1"?><rdf:RDF xmlns:rdf="http://www.w3.org/1999/02/22-rdf-syntax-ns#" xmlns:e="urn:e:"><rdf:Description rdf:about="urn:a"><e:p>caf\u00e9</e:p></rdf:Description></rdf:RDF>',
      [["u:urn:a", "u:urn:e:p", "l:caf\u00e9"]]),
 ]
